@@ -12,12 +12,13 @@ def jobs(tier, ctx):
                       assumptions=['output path (add_message/flush_message) and LPC applies cut to counting stubs in decoder harnesses',
                                    'decoder invariant: 8 machine states, CR flag only in DATA, 0<=sb_pos<=K for K=99 or K=100 (the check holds if one K is inductive and safe)']))
     # whole-call vs byte-by-byte equivalence costs > 10 min: thorough tier only (the inductive step above is the quick decider)
-    for nb in (() if tier == 'quick' else (2, 3)):
-      J.append(dict(name='decoder_split.n%d' % nb, srcs=['@harness/C13/decoder_step.c'],
-                  stubs=['@harness/C13/stubs_decoder.c'] + BASE, cuts=CUTS, defs=['MODE_SPLIT=1', 'NB=%d' % nb, 'K=99'],
-                  unwind=104, targets=['copy_chars'], timeout=3000, mem_gb=16,
-                  desc='copy_chars(b0..b%d) in one call vs byte-by-byte from the same arbitrary state: same output, state and side calls' % (nb - 1),
-                  inputs='state, sb_pos, iflags, sb_buf[100], %d input bytes' % nb))
+    for nb in (() if tier == 'quick' else (2,)):
+      for st in range(8):
+        J.append(dict(name='decoder_split.n%d.state%d' % (nb, st), srcs=['@harness/C13/decoder_step.c'],
+                  stubs=['@harness/C13/stubs_decoder.c'] + BASE, cuts=CUTS, defs=['MODE_SPLIT=1', 'NB=%d' % nb, 'K=99', 'STATE0=%d' % st],
+                  unwind=104, targets=['copy_chars'], timeout=1500, mem_gb=10,
+                  desc='copy_chars(b0..b%d) in one call vs byte-by-byte from the same arbitrary decoder state with machine state %d: same output, state and side calls' % (nb - 1, st),
+                  inputs='CR flag, sb_pos, iflags, sb_buf[100], %d input bytes' % nb))
     ne = 4 if tier == 'quick' else 6
     J.append(dict(name='line_edit.n%d' % ne, srcs=['@harness/C13/line_edit.c'], stubs=['@harness/C13/stubs_decoder.c'] + BASE, cuts=CUTS, defs=['NB=%d' % ne], unwind=ne + 3,
                   targets=['telnet_neg'], timeout=300, mem_gb=6, opt_witness=['erased_inside_line', 'erase_on_empty_line'],
